@@ -2,6 +2,7 @@ package main
 
 import (
 	"fmt"
+	"go/token"
 	"go/types"
 	"strings"
 
@@ -16,6 +17,7 @@ func checkC12(p *Program, r *Report) {
 	r.Rule("C12.verify", "E3", "every positive answer is the reader's own result for (trie offset, query key)", 2)
 	r.Rule("C12.route", "call graph", "Get -> SlimTrie.Get, RangeGet -> SlimTrie.RangeGet", 2)
 	r.Rule("C12.type", "types", "offset type produced by the index encoder = type asserted on lookup", 2)
+	r.Rule("C12.narrow", "E9", "no offset is narrowed without a bound that fits the narrower type", 0)
 	rule := func(name string) {
 		for _, ri := range r.Rules {
 			if ri.Name == name {
@@ -23,7 +25,7 @@ func checkC12(p *Program, r *Report) {
 			}
 		}
 	}
-	var asserted []types.Type
+	assertedBy := map[string][]types.Type{}
 	inIndex := func(g *ssa.Function) bool { return pkgPathOf(g) == indexPath }
 	indexReach := func(f *ssa.Function) map[*ssa.Function]bool {
 		seen := map[*ssa.Function]bool{}
@@ -66,8 +68,8 @@ func checkC12(p *Program, r *Report) {
 				}
 			}
 			instrsOf(g, func(_ *ssa.BasicBlock, in ssa.Instruction) {
-				if ta, ok := in.(*ssa.TypeAssert); ok && !ta.CommaOk {
-					asserted = append(asserted, ta.AssertedType)
+				if ta, ok := in.(*ssa.TypeAssert); ok {
+					assertedBy[m] = append(assertedBy[m], ta.AssertedType)
 				}
 			})
 		}
@@ -86,45 +88,78 @@ func checkC12(p *Program, r *Report) {
 		lookupT := "call:" + funcID(tf) + "("
 		var bad []string
 		nNF, nF := 0, 0
-		foundCond := ""
+		flag := "extract:1(" + lookupT
+		isLookupFlag := func(c string) (neg, ok bool) {
+			c0 := strings.TrimPrefix(c, "!")
+			if strings.HasPrefix(c0, flag) && strings.HasSuffix(c0, ","+key.Name()+"))") && !strings.Contains(c0, "assert:") {
+				return c0 != c, true
+			}
+			return false, false
+		}
 		for _, fp := range ps {
 			if fp.panics {
 				bad = append(bad, "a path panics")
 				continue
 			}
-			if len(fp.results) != 2 || len(fp.pc) != 1 {
+			if len(fp.results) != 2 {
 				bad = append(bad, "path ["+abbreviate(fp.pcKey())+"] => "+abbreviate(fp.resKey())+" is not one of the two expected cases")
 				continue
 			}
-			pc := fp.pc[0]
-			fl := "extract:1(" + lookupT
-			switch {
-			case strings.HasPrefix(pc, "!"+fl) && strings.HasSuffix(pc, ","+key.Name()+"))"):
+			// exactly one conjunct is the trie's found flag for the key; any other conjunct may only be a
+			// dynamic type test of the value the trie returned (a conversion helper with several cases)
+			nFlag, neg := 0, false
+			lk := ""
+			var other []string
+			for _, c := range dedupStrings(append([]string{}, fp.pc...)) {
+				if ng, ok := isLookupFlag(c); ok {
+					nFlag++
+					neg = ng
+					lk = strings.TrimSuffix(strings.TrimPrefix(strings.TrimPrefix(c, "!"), "extract:1("), ")")
+					continue
+				}
+				other = append(other, c)
+			}
+			if nFlag != 1 {
+				bad = append(bad, "path condition ["+abbreviate(fp.pcKey())+"] is not the found flag of (*SlimTrie)."+m+"(key)")
+				continue
+			}
+			for _, c := range other {
+				c0 := strings.TrimPrefix(c, "!")
+				if !(strings.HasPrefix(c0, "extract:1(assert:") && strings.Contains(c0, "(extract:0("+lk+"))")) {
+					bad = append(bad, "the answer also depends on ["+abbreviate(c)+"], which is neither the trie's found flag nor a type test of its value")
+				}
+			}
+			r0, r1 := fp.results[0].String(), fp.results[1].String()
+			if neg {
 				nNF++
-				if fp.results[0].String() != "const:\"\"" || fp.results[1].String() != "false" {
+				if r0 != "const:\"\"" || r1 != "false" {
 					bad = append(bad, "the trie's not-found case returns ("+fp.resKey()+"), want (\"\", false)")
 				}
-			case strings.HasPrefix(pc, fl) && strings.HasSuffix(pc, ","+key.Name()+"))"):
-				nF++
-				foundCond = pc
-				lk := strings.TrimPrefix(pc, "extract:1(")
-				lk = strings.TrimSuffix(lk, ")")
-				r0, r1 := fp.results[0].String(), fp.results[1].String()
-				okRead := strings.HasPrefix(r0, "extract:0(call:invoke.Read(") && strings.HasPrefix(r1, "extract:1(call:invoke.Read(") &&
-					strings.TrimPrefix(r0, "extract:0(") == strings.TrimPrefix(r1, "extract:1(")
-				okArgs := strings.Contains(r0, "(extract:0("+lk+"))") && strings.HasSuffix(r0, ","+key.Name()+"))") && strings.Contains(r0, ",assert:")
-				if !okRead {
-					bad = append(bad, "the found case returns "+abbreviate(fp.resKey())+", not the reader's own result pair: an answer without key verification")
-				} else if !okArgs {
-					bad = append(bad, "the reader is not called with (the value the trie returned for the key, the key): "+abbreviate(r0))
+				continue
+			}
+			nF++
+			okRead := strings.HasPrefix(r0, "extract:0(call:invoke.Read(") && strings.HasPrefix(r1, "extract:1(call:invoke.Read(") &&
+				strings.TrimPrefix(r0, "extract:0(") == strings.TrimPrefix(r1, "extract:1(")
+			okArgs := strings.Contains(r0, "(extract:0("+lk+"))") && strings.HasSuffix(r0, ","+key.Name()+"))") && strings.Contains(r0, "assert:")
+			if okArgs {
+				// the offset argument is built from the trie's value and nothing else
+				arg := strings.TrimSuffix(strings.TrimPrefix(r0, "extract:0(call:invoke.Read("), ","+key.Name()+"))")
+				if i := strings.Index(arg, ","); i >= 0 {
+					arg = arg[i+1:]
 				}
-			default:
-				bad = append(bad, "path condition ["+abbreviate(pc)+"] is not the found flag of (*SlimTrie)."+m+"(key)")
+				rest := strings.Replace(arg, "extract:0("+lk+")", "V", -1)
+				if strings.Contains(rest, "call:") || strings.Contains(rest, key.Name()) {
+					okArgs = false
+				}
+			}
+			if !okRead {
+				bad = append(bad, "the found case returns "+abbreviate(fp.resKey())+", not the reader's own result pair: an answer without key verification")
+			} else if !okArgs {
+				bad = append(bad, "the reader is not called with (the value the trie returned for the key, the key): "+abbreviate(r0))
 			}
 		}
-		_ = foundCond
-		if nNF != 1 || nF != 1 {
-			bad = append(bad, fmt.Sprintf("%d not-found and %d found cases, want one each", nNF, nF))
+		if nNF < 1 || nF < 1 {
+			bad = append(bad, fmt.Sprintf("%d not-found and %d found cases, want at least one each", nNF, nF))
 		}
 		r.Check(len(bad) == 0, construct, p.Pos(f.Pos()), "not found -> (\"\", false); found -> DataReader.Read(value.(T), key) unchanged", strings.Join(dedupStrings(sortStr(bad)), "; "))
 	}
@@ -137,50 +172,208 @@ func checkC12(p *Program, r *Report) {
 		return
 	}
 	r.Func(shortFn(ctor))
-	var encT types.Type
-	var valuesT types.Type
+	// every trie the constructor can build: its encoder's boxed type is the element type of the values it
+	// is given and a type both lookups handle
+	nBuilds := 0
 	for _, c := range callsIn(ctor) {
 		call, ok := c.(*ssa.Call)
 		if !ok || calleeOf(call) != p.Trie.Func("NewSlimTrie") {
 			continue
 		}
+		nBuilds++
+		var encT, valuesT types.Type
 		if mi, ok := call.Call.Args[0].(*ssa.MakeInterface); ok {
 			encT = mi.X.Type()
 		}
 		if mi, ok := call.Call.Args[2].(*ssa.MakeInterface); ok {
 			valuesT = mi.X.Type()
 		}
-	}
-	if encT == nil {
-		r.Unk("index encoder", p.Pos(ctor.Pos()), "NewSlimIndex does not pass a concrete encoder to NewSlimTrie")
-		return
-	}
-	n, _ := encT.(*types.Named)
-	var boxed types.Type
-	if n != nil {
-		if dec := encMethod(p, n, "Decode"); dec != nil {
-			for _, ret := range returnsOf(dec) {
-				if len(ret.Results) == 2 {
-					if mi, ok := ret.Results[1].(*ssa.MakeInterface); ok {
-						boxed = mi.X.Type()
+		if encT == nil {
+			r.Unk("index encoder", p.Pos(call.Pos()), "NewSlimIndex does not pass a concrete encoder to NewSlimTrie")
+			continue
+		}
+		n, _ := encT.(*types.Named)
+		var boxed types.Type
+		if n != nil {
+			if dec := encMethod(p, n, "Decode"); dec != nil {
+				for _, ret := range returnsOf(dec) {
+					if len(ret.Results) == 2 {
+						if mi, ok := ret.Results[1].(*ssa.MakeInterface); ok {
+							boxed = mi.X.Type()
+						}
 					}
 				}
 			}
 		}
-	}
-	okT := boxed != nil && len(asserted) >= 1
-	for _, a := range asserted {
-		if boxed == nil || !types.Identical(a, boxed) {
-			okT = false
+		okT := boxed != nil
+		for _, m := range []string{"Get", "RangeGet"} {
+			handled := false
+			for _, a := range assertedBy[m] {
+				if boxed != nil && types.Identical(a, boxed) {
+					handled = true
+				}
+			}
+			if !handled {
+				okT = false
+			}
 		}
+		r.Check(okT, "offset type: encoder "+encT.String()+" vs lookup assertions", p.Pos(call.Pos()), "Decode boxes "+fmt.Sprint(boxed)+", which both lookups assert",
+			fmt.Sprintf("the encoder's Decode boxes %v but the lookups assert Get:%v RangeGet:%v: a hit would panic", boxed, assertedBy["Get"], assertedBy["RangeGet"]))
+		okV := false
+		if sl, ok := valuesT.(*types.Slice); ok && boxed != nil {
+			okV = types.Identical(sl.Elem(), boxed)
+		}
+		r.Check(okV, "offset slice element type for "+encT.String(), p.Pos(call.Pos()), "[]"+fmt.Sprint(boxed)+" is what the encoder's Encode asserts", fmt.Sprintf("values of type %v are handed to an encoder for %v", valuesT, boxed))
 	}
-	r.Check(okT, "offset type: encoder "+encT.String()+" vs lookup assertions", p.Pos(ctor.Pos()), "Decode boxes "+fmt.Sprint(boxed)+", which both lookups assert",
-		fmt.Sprintf("the encoder's Decode boxes %v but the lookups assert %v: the first hit would panic", boxed, asserted))
-	okV := false
-	if sl, ok := valuesT.(*types.Slice); ok && boxed != nil {
-		okV = types.Identical(sl.Elem(), boxed)
+	if nBuilds == 0 {
+		r.Unk("index encoder", p.Pos(ctor.Pos()), "NewSlimIndex does not call NewSlimTrie")
 	}
-	r.Check(okV, "offset slice element type", p.Pos(ctor.Pos()), "[]"+fmt.Sprint(boxed)+" is what the encoder's Encode asserts", fmt.Sprintf("values of type %v are handed to an encoder for %v", valuesT, boxed))
+
+	// ---- narrowing: offsets are int64; a narrower leaf type needs a bound that fits it
+	rule("C12.narrow")
+	checkOffsetNarrowing(p, r, p.FuncsOf(indexPath), "index")
 }
 
 func init() { checks["C12"] = checkC12 }
+
+// checkOffsetNarrowing: every integer narrowing conversion in the given
+// functions whose operand is not provably small needs, in the same function,
+// constant bounds on a value of the operand's type that fit the target type:
+// the tightest upper-bound comparison constant must not exceed the target's
+// maximum and, for a signed source, a lower bound must not undercut its
+// minimum; or the round-trip idiom T(S(x)) == x. An absent or too-wide bound
+// is reported.
+func checkOffsetNarrowing(p *Program, r *Report, fns []*ssa.Function, what string) int {
+	n := 0
+	for _, f := range fns {
+		if f.Synthetic != "" || len(f.Blocks) == 0 || strings.HasSuffix(p.File(f.Pos()), ".pb.go") {
+			continue
+		}
+		e := newEval(p)
+		var sites []*ssa.Convert
+		instrsOf(f, func(_ *ssa.BasicBlock, in ssa.Instruction) {
+			cv, ok := in.(*ssa.Convert)
+			if !ok {
+				return
+			}
+			tb, ok1 := cv.Type().Underlying().(*types.Basic)
+			sb, ok2 := cv.X.Type().Underlying().(*types.Basic)
+			if !ok1 || !ok2 || tb.Info()&types.IsInteger == 0 || sb.Info()&types.IsInteger == 0 {
+				return
+			}
+			tw, sw := int(8*p.Sizes.Sizeof(tb)), int(8*p.Sizes.Sizeof(sb))
+			if sw <= tw {
+				return
+			}
+			if _, isConst := cv.X.(*ssa.Const); isConst {
+				return
+			}
+			if e.bits(cv.X) <= tw-1 {
+				return // provably small (length, masked value, ...)
+			}
+			sites = append(sites, cv)
+		})
+		if len(sites) == 0 {
+			continue
+		}
+		// cut points established anywhere in the function on values of the source type: a comparison
+		// with a constant splits the line in two, whichever way its branches go; the narrow
+		// representation is used for small values, so the accepted region is the one containing 0
+		cuts := map[string][]int64{}
+		roundTrip := map[string]bool{}
+		instrsOf(f, func(_ *ssa.BasicBlock, in ssa.Instruction) {
+			bo, ok := in.(*ssa.BinOp)
+			if !ok {
+				return
+			}
+			kx, isKx := constInt(bo.X)
+			ky, isKy := constInt(bo.Y)
+			switch {
+			case isKy && (bo.Op == token.GTR || bo.Op == token.LEQ): // x > K / x <= K
+				cuts[bo.X.Type().String()] = append(cuts[bo.X.Type().String()], ky+1)
+			case isKy && (bo.Op == token.GEQ || bo.Op == token.LSS): // x >= K / x < K
+				cuts[bo.X.Type().String()] = append(cuts[bo.X.Type().String()], ky)
+			case isKx && (bo.Op == token.LSS || bo.Op == token.GEQ): // K < x / K >= x
+				cuts[bo.Y.Type().String()] = append(cuts[bo.Y.Type().String()], kx+1)
+			case isKx && (bo.Op == token.LEQ || bo.Op == token.GTR): // K <= x / K > x
+				cuts[bo.Y.Type().String()] = append(cuts[bo.Y.Type().String()], kx)
+			case bo.Op == token.EQL || bo.Op == token.NEQ:
+				// round trip: S(T(x)) ==/!= x
+				for _, pair := range [][2]ssa.Value{{bo.X, bo.Y}, {bo.Y, bo.X}} {
+					if c1, ok := pair[0].(*ssa.Convert); ok {
+						if c2, ok := c1.X.(*ssa.Convert); ok && c2.X == pair[1] {
+							roundTrip[c2.Type().String()+"<-"+pair[1].Type().String()] = true
+						}
+					}
+				}
+			}
+		})
+		for _, cv := range sites {
+			n++
+			tb := cv.Type().Underlying().(*types.Basic)
+			tw := uint(8 * p.Sizes.Sizeof(tb))
+			var max, min int64
+			if tb.Info()&types.IsUnsigned != 0 {
+				max, min = 1<<tw-1, 0
+			} else {
+				max, min = 1<<(tw-1)-1, -(1 << (tw - 1))
+			}
+			construct := fmt.Sprintf("%s: %s(%s) in %s", what, tb.String(), cv.X.Type().String(), shortFn(f))
+			if roundTrip[cv.Type().String()+"<-"+cv.X.Type().String()] {
+				r.OK(construct, p.Pos(cv.Pos()), "round-trip comparison in the same function")
+				continue
+			}
+			hasUp, hasLo := false, false
+			var up, lo int64
+			for _, c := range cuts[cv.X.Type().String()] {
+				if c > 0 && (!hasUp || c-1 < up) {
+					up, hasUp = c-1, true
+				}
+				if c <= 0 && (!hasLo || c > lo) {
+					lo, hasLo = c, true
+				}
+			}
+			switch {
+			case !hasUp:
+				r.Bad(construct, p.Pos(cv.Pos()), fmt.Sprintf("narrowing to %s without any upper-bound test on a %s in this function: values above %d wrap", tb, cv.X.Type(), max))
+			case up > max:
+				r.Bad(construct, p.Pos(cv.Pos()), fmt.Sprintf("narrowing to %s, whose maximum is %d, but the tightest bound tested above 0 on a %s in this function is %d: values in (%d, %d] pass the test and wrap", tb, max, cv.X.Type(), up, max, up))
+			case hasLo && lo < min:
+				r.Bad(construct, p.Pos(cv.Pos()), fmt.Sprintf("narrowing to %s, whose minimum is %d, but the lower bound tested is %d", tb, min, lo))
+			default:
+				r.OK(construct, p.Pos(cv.Pos()), fmt.Sprintf("values around 0 are cut off at %d, within the range of %s", up, tb))
+			}
+		}
+	}
+	return n
+}
+
+func controlC12(fx *Program, r *Report) {
+	pkg := fx.FxPkg("narrowidx")
+	if pkg == nil {
+		r.Control("C12.narrow", "fixtures/narrowidx", false, "fixture package not loaded")
+		return
+	}
+	for _, tc := range []struct {
+		fn   string
+		want bool
+	}{{"Build32Wrong", true}, {"Build32Unguarded", true}, {"Build32Right", false}} {
+		f := pkg.Func(tc.fn)
+		if f == nil {
+			r.Control("C12.narrow", "narrowidx."+tc.fn, false, "function not found")
+			continue
+		}
+		tmp := NewReport("C12", "fixtures")
+		tmp.Rule("C12.narrow", "E9", "control", 0)
+		n := checkOffsetNarrowing(fx, tmp, []*ssa.Function{f}, "fixture")
+		bad := 0
+		for _, o := range tmp.Obls {
+			if o.Status == Violated {
+				bad++
+			}
+		}
+		r.Control("C12.narrow", "narrowidx."+tc.fn, n >= 1 && (bad > 0) == tc.want, fmt.Sprintf("expected flagged=%v: %d narrowing site(s), %d violated", tc.want, n, bad))
+	}
+}
+
+func init() { controlFns["C12"] = controlC12 }
